@@ -96,6 +96,17 @@ CHECKS = {
         note="The 15 AST passes, analysis, code generation, peephole rewrites, the rest of the 1400-line interpreter match and the stdlib are NOT covered.",
         technique="contract-based deductive verification: verbatim extraction of VmCore methods / a match arm + Kani contract harnesses (CBMC)",
     ),
+    "C17": dict(
+        category="proof",
+        text="Contracts on the interruption flag protocol, loop-free over every flag combination: interrupt() sets paused+Interrupted and "
+             "resume() clears them from every prior state; safepoint_or_interrupt returns an error (without parking, without publishing the thread "
+             "pointer) iff paused && Interrupted, parks on Suspended / PausedAtSafepoint and always retracts the pointer; lemma: after interrupt() "
+             "every poll fails until resume(), after which polls succeed; a thread waiting in enter_safepoint leaves its loop when interrupted.",
+        design_ref="DESIGN.md section 3, C17",
+        note="That every loop of every tier actually polls (interpreter loop head, JIT code, transducers, primitives) and the latency bound are NOT "
+             "decided - the larger part of the property. Single-thread semantics for the two relaxed stores.",
+        technique="contract-based deductive verification: verbatim extraction + Kani contract harnesses (CBMC), all flag states",
+    ),
 }
 
 NOT_APPLICABLE = {
